@@ -532,7 +532,8 @@ def l10(ctx, rid):
                     continue
                 n += 1
                 key = 'progress-past-failure|%s|%s' % (prog.fns[f.id].root, c.name)
-                if c.bb not in f.reach_from([start], avoid_exit=incs):
+                if c.bb in incs or c.bb not in f.reach_from([start], avoid_exit=incs):
+                    # (statements of a block run before its terminating call: an increment in the call's own block precedes it)
                     ctx.ok(rid, key, c.where(), '`%s` advanced before the element is processed' % f.debug_name(P))
                     continue
                 cb = core.completion_block(f, c)
